@@ -361,6 +361,16 @@ impl<'a> Runner<'a> {
         }
         SessionKind::BottomUp { report, then_require, pre_require, shape, .. } => {
           let mut bu_part = |session: &mut pie::Session, roots_out: &mut Vec<(Tid, Out)>| {
+            if shape & 4 != 0 {
+              // A build that gets the report and is dropped unused *before* the top-down phase: what it scheduled must
+              // not survive into the real build (the top-down phase brings some of those tasks up to date).
+              log(Ev::BuStart);
+              {
+                let mut bu = session.create_bottom_up_build();
+                for r in report.iter() { schedule(&mut bu, prog.resources[*r]); }
+              }
+              log(Ev::BuDropped);
+            }
             for t in pre_require.iter() {
               log(Ev::RootStart { t: *t });
               let out = require_root(session, prog.tasks[*t].key);
@@ -471,7 +481,9 @@ impl<'a> Runner<'a> {
     let mut stale_before = stale_before;
     if let SessionKind::BottomUp { pre_require, .. } = &kind {
       if !pre_require.is_empty() {
-        let pre_end = slice.iter().position(|e| matches!(e, Ev::BuStart)).unwrap_or(slice.len());
+        // The top-down phase ends where the first build that is really run begins (dropped builds do not count).
+        let first_run = slice.iter().position(|e| matches!(e, Ev::BuScheduled)).unwrap_or(slice.len());
+        let pre_end = slice[..first_run].iter().rposition(|e| matches!(e, Ev::BuStart)).unwrap_or(first_run);
         let pre = &slice[..pre_end];
         let pre_reexec: BTreeSet<Tid> = pre.iter().filter_map(|e| if let Ev::ExecStart { t, n, .. } = e { if *n > 1 { Some(*t) } else { None } } else { None }).collect();
         let pre_exec: BTreeSet<Tid> = pre.iter().filter_map(|e| if let Ev::ExecStart { t, .. } = e { Some(*t) } else { None }).collect();
